@@ -101,8 +101,36 @@ def counter_tests(f, d):
 
 def cell_writes(f, d):
     """[(bb, field, how, value origin)] for Cell::set / Cell::replace on a field of self; how = 'inc' (stores get(same field) + 1),
-    'dec', 'max' (the larger of get(same field) and something else), 'from:<field>' (stores get(other field)), or 'other'"""
+    'dec', 'max' (the larger of get(same field) and something else), 'from:<field>' (stores get(other field), possibly plus a
+    constant), or 'other'. Locals that hold a value read earlier (`let level = self.depth.get(); .. set(level + 1)`) are followed."""
     out = []
+
+    def feeds(o, depth=0):
+        """(cell field read, constant added) of a value, or None"""
+        if depth > 8:
+            return None
+        base = o
+        while base.get("k") == "field":
+            base = base["base"]
+        if base.get("k") == "call":
+            c = callee(base["t"]) or ""
+            if c.endswith("Cell::<T>::get"):
+                return cell_field(d, base["t"]["args"][0]), 0
+            return None
+        if base.get("k") == "rv" and base["rv"].get("k") == "bin" and base["rv"]["op"] in ("AddWithOverflow", "Add", "SubWithOverflow", "Sub"):
+            a, b_ = base["rv"]["a"], base["rv"]["b"]
+            kb = b_.get("k") if isinstance(b_, dict) else None
+            if isinstance(kb, dict) and "bits" in kb and isinstance(a, dict) and "k" not in a:
+                r = feeds(d.origin_op(a), depth + 1)
+                if r:
+                    n_ = int(kb["bits"])
+                    return r[0], r[1] + (n_ if base["rv"]["op"].startswith("Add") else -n_)
+            return None
+        if base.get("k") == "rv" and base["rv"].get("k") in ("use", "cast"):
+            op_ = base["rv"].get("op")
+            if isinstance(op_, dict) and "k" not in op_:
+                return feeds(d.origin_op(op_), depth + 1)
+        return None
     for b, t in f.calls():
         c = callee(t) or ""
         if not c.endswith(("Cell::<T>::set", "Cell::<T>::replace")):
@@ -112,23 +140,18 @@ def cell_writes(f, d):
         base = o
         while base.get("k") == "field":
             base = base["base"]
-
-        def got(op_):
-            oo = d.origin_op(op_) if isinstance(op_, dict) and "k" not in op_ else {}
-            if oo.get("k") == "call" and (callee(oo["t"]) or "").endswith("Cell::<T>::get"):
-                return cell_field(d, oo["t"]["args"][0])
-            return None
         how = "other"
-        if base.get("k") == "rv" and base["rv"].get("k") == "bin" and base["rv"]["op"] in ("AddWithOverflow", "Add", "SubWithOverflow", "Sub"):
-            kb = base["rv"]["b"].get("k") if isinstance(base["rv"]["b"], dict) else None
-            if isinstance(kb, dict) and str(kb.get("bits")) == "1" and got(base["rv"]["a"]) == fld and fld is not None:
-                how = "inc" if base["rv"]["op"].startswith("Add") else "dec"
-        elif base.get("k") == "call" and (callee(base["t"]) or "").endswith(("Ord::max", "cmp::max")):
-            if any(got(a) == fld for a in base["t"]["args"]) and fld is not None:
+        r = feeds(o)
+        if r and r[0] is not None:
+            if r[0] == fld and r[1] == 1:
+                how = "inc"
+            elif r[0] == fld and r[1] == -1:
+                how = "dec"
+            elif r[0] != fld:
+                how = "from:%s" % r[0]
+        elif base.get("k") == "call" and (callee(base["t"]) or "").endswith(("Ord::max", "cmp::max")) and fld is not None:
+            if any((feeds(d.origin_op(a)) or (None, 0))[0] == fld for a in base["t"]["args"] if isinstance(a, dict) and "k" not in a):
                 how = "max"
-        elif base.get("k") == "call" and (callee(base["t"]) or "").endswith("Cell::<T>::get"):
-            src = cell_field(d, base["t"]["args"][0])
-            how = "from:%s" % src
         out.append((b, fld, how, o))
     return out
 
